@@ -3,6 +3,7 @@ from vmon.probe import shard_rng, observe
 from vmon.refs import b58 as RB, ec as REC, msgsign as RM, sec as RS
 
 PROPERTY = "C17"
+PRELOAD_NETWORK_ORDERS = [["btc", "xtn", "ltc", "bch", "grs", "doge", "dash", "btg"], ["btg", "grs", "bch", "doge", "ltc", "xtn", "btc"]]
 LEVEL = "exploration"
 TECHNIQUE = ("runtime monitor at network.msg.* vs an independent message-digest / compact-signature / public-key-recovery "
              "reference; totality oracle (bool, never an exception) over hostile signature text")
